@@ -20,6 +20,10 @@ structure State where
   /-- the change the model predicts for the last commit of a replica: (seq, startOp, deps, ops) -/
   predicted : List (String × (Nat × Nat × List Hash × List Op)) := []
   enc : Enc := .cp
+  /-- isolation heads per replica (`AutoCommit::isolate`) -/
+  iso : List (String × List Hash) := []
+  /-- raw chunk bytes of every announced change -/
+  raws : List (Hash × Bytes) := []
   deriving Inhabited
 
 def parseId (s : String) : Option OpId :=
@@ -117,8 +121,12 @@ def lookup (st : State) (h : String) : Option Change :=
 def showHashes (hs : List Hash) : String :=
   if hs.isEmpty then "-" else joinWith "," (hs.map hexOfBytes)
 
-def summary (d : Doc) : String :=
-  s!"heads={showHashes d.heads} missing={showHashes (d.missingDeps [])} applied={d.applied.length}"
+def summary (d : Doc) (iso : Option (List Hash) := none) : String :=
+  -- `AutoCommit::get_heads` returns the isolation heads while isolated
+  let hs := match iso with | some i => sortHashes i | none => d.heads
+  s!"heads={showHashes hs} missing={showHashes (d.missingDeps [])} applied={d.applied.length}"
+
+def isoOf (st : State) (r : String) : Option (List Hash) := (st.iso.find? (fun p => p.1 == r)).map (·.2)
 
 /-- the changes a loaded chunk contributes (change chunks by their hash, document and bundle chunks
     through the announced table) -/
@@ -181,12 +189,17 @@ def edit (st : State) (r obj : String)
   match parseObj obj, st.actors.find? (fun p => p.1 == r) with
   | some o, some (_, actor) =>
     let d := getReplica st r
+    let isoHeads := (st.iso.find? (fun p => p.1 == r)).map (·.2)
     let (t, st1) := match st.txs.find? (fun p => p.1 == r) with
       | some (_, t) => (t, st)
       | none =>
-        (d.beginTx actor, st)
+        match isoHeads with
+        | some hs => (d.beginTx (d.isolateActor actor hs), st)
+        | none => (d.beginTx actor, st)
     let d := getReplica st1 r
-    match f st1.enc (d.ops ++ t.pending) t o with
+    -- an isolated transaction reads the document at the isolation heads (plus its own ops)
+    let base := match isoHeads with | some hs => (d.at hs).ops | none => d.ops
+    match f st1.enc (base ++ t.pending) t o with
     | none => (st1, ["bad-input"])
     | some (res, showId) =>
       match res with
@@ -219,11 +232,38 @@ def exec (st : State) (toks : List String) : State × List String :=
     match st.files.find? (fun p => p.1 == f), bit.toNat? with
     | some p, some b => loadResult st r (loadDoc st (parseMode mode) (flipBit p.2 b))
     | _, _ => (st, ["bad-input"])
-  | ["crdt.def", hash, actor, seq, startOp, deps, ops, _raw] =>
-    match unhx hash, unhx actor, seq.toNat?, startOp.toNat?, unhxList deps, parseOps ops with
-    | some h, some a, some s, some so, some ds, some os =>
-      ({ st with changes := ⟨h, a, s, so, ds, os⟩ :: st.changes }, ["ok"])
-    | _, _, _, _, _, _ => (st, ["bad-input"])
+  | ["crdt.def", hash, actor, seq, startOp, deps, ops, raw] =>
+    match unhx hash, unhx actor, seq.toNat?, startOp.toNat?, unhxList deps, parseOps ops, unhx raw with
+    | some h, some a, some s, some so, some ds, some os, some rb =>
+      ({ st with changes := ⟨h, a, s, so, ds, os⟩ :: st.changes, raws := (h, rb) :: st.raws }, ["ok"])
+    | _, _, _, _, _, _, _ => (st, ["bad-input"])
+  -- `load_incremental` of the concatenated raw bytes of the named changes: an EMPTY document (nothing
+  -- applied, nothing queued) is replaced by `load(data)` with partial loads allowed; otherwise the
+  -- chunks that parse are applied like `apply_changes`
+  | ["crdt.loadinc", r, hs] =>
+    match unhxList hs with
+    | none => (st, ["bad-input"])
+    | some hl =>
+      match hl.mapM (fun h => (st.raws.find? (fun p => p.1 == h)).map (·.2)) with
+      | none => (st, ["bad-input"])
+      | some rs =>
+        let data := rs.flatten
+        let d := getReplica st r
+        if d.applied.isEmpty && d.queue.isEmpty then
+          match loadDoc st .ignore data with
+          | some (.ok d') => (setReplica st r d', [s!"ok {summary d' (isoOf st r)}"])
+          | some (.error _) => (st, [s!"err {summary d (isoOf st r)}"])
+          | none => (st, ["unknown-chunk"])
+        else
+          let l := Chunk.loadChunks (fun _ _ => true) (data.length + 1) data []
+          match l.chunks.mapM (chunkChanges st) with
+          | none => (st, ["unknown-chunk"])
+          | some css =>
+            let (d', res) := applyBatch d css.flatten
+            let rs := match res with
+              | .ok _ => "ok"
+              | .error (.duplicateSeq s a) => s!"err dupseq {s} {hexOfBytes a}"
+            (setReplica st r d', [s!"{rs} {summary d' (isoOf st r)}"])
   | ["crdt.new", r, enc, actor] =>
     match unhx actor with
     | some a =>
@@ -245,7 +285,7 @@ def exec (st : State) (toks : List String) : State × List String :=
       let rs := match res with
         | .ok _ => "ok"
         | .error (.duplicateSeq s a) => s!"err dupseq {s} {hexOfBytes a}"
-      (setReplica st r d', [s!"{rs} {summary d'}"])
+      (setReplica st r d', [s!"{rs} {summary d' (isoOf st r)}"])
   -- a change made locally by replica `r` (its deps are the replica's heads, so it is ready)
   | ["crdt.local", r, h] =>
     match lookup st h with
@@ -264,10 +304,18 @@ def exec (st : State) (toks : List String) : State × List String :=
           else if sortHashes deps != sortHashes c.deps then s!"MISMATCH deps predicted {showHashes deps}"
           else if ops != c.ops then s!"MISMATCH ops predicted {repr ops}"
           else "ok"
-      (setReplica { st with predicted := st.predicted.filter (fun p => p.1 != r) } r d', [s!"{verdict} {summary d'}"])
+      -- an isolated replica continues from its own commit
+      let iso' := match st.iso.find? (fun p => p.1 == r) with
+        | some _ => (r, [c.hash]) :: st.iso.filter (fun p => p.1 != r)
+        | none => st.iso
+      let st' := setReplica { st with predicted := st.predicted.filter (fun p => p.1 != r), iso := iso' } r d'
+      (st', [s!"{verdict} {summary d' (isoOf st' r)}"])
   | ["crdt.state", r] =>
     let pend := match st.txs.find? (fun p => p.1 == r) with | some (_, t) => t.pending | none => []
-    (st, [showDoc ((getReplica st r).ops ++ pend)])
+    let d := getReplica st r
+    let base := match st.iso.find? (fun p => p.1 == r) with | some (_, hs) => (d.at hs).ops | none => d.ops
+    (st, [showDoc (base ++ pend)])
+  | ["crdt.expect", _r] => (st, ["ok"])
   | ["crdt.changes", r, hs] =>
     match unhxList hs with
     | some have_ =>
@@ -320,7 +368,9 @@ def exec (st : State) (toks : List String) : State × List String :=
       if t.pending.isEmpty then (st', ["none"]) else
       let d := getReplica st r
       let seq := d.seqForActor t.actor + 1
-      ({ st' with predicted := (r, (seq, t.startOp, d.localDeps t.actor, t.pending)) :: st'.predicted.filter (fun p => p.1 != r) }, ["ok"])
+      -- isolated: the deps are exactly the isolation heads
+      let deps := match st.iso.find? (fun p => p.1 == r) with | some (_, hs) => hs | none => d.localDeps t.actor
+      ({ st' with predicted := (r, (seq, t.startOp, deps, t.pending)) :: st'.predicted.filter (fun p => p.1 != r) }, ["ok"])
   | ["crdt.rollback", r] =>
     match st.txs.find? (fun p => p.1 == r) with
     | none => (st, ["0"])
